@@ -176,7 +176,7 @@ def tables():
 def _server():
     if _State.proc is None or _State.proc.poll() is not None or _State.proc_pid != os.getpid():
         _State.proc = subprocess.Popen(
-            ["java", "-Xss512m", "-Xmx512m", "-XX:+UseSerialGC", "-XX:TieredStopAtLevel=1", "-cp", f"{JAR}:{BUILD}",
+            ["java", "-Xss512m", "-Xmx512m", "-XX:+UseSerialGC", "-cp", f"{JAR}:{BUILD}",
              "VtlParseServer", CDIR],
             stdin=subprocess.PIPE, stdout=subprocess.PIPE)
         _State.proc_pid = os.getpid()
@@ -360,8 +360,13 @@ def compare_modes(text):
     return request(3, text)
 
 
-def enumerate_tokens(k, alphabet, cmp=False):
-    return request(4, "%d %s\n%s" % (k, "cmp" if cmp else "sll", "\n".join(alphabet)))
+def enumerate_tokens(k, alphabet, cmp=False, first=-1):
+    return request(4, "%d %s %d\n%s" % (k, "cmp" if cmp else "sll", first, "\n".join(alphabet)))
+
+
+def mutations(text, cmp=False):
+    """every single-token deletion / duplication / adjacent swap of text, parsed in the JVM"""
+    return request(8, ("cmp" if cmp else "sll") + "\n" + text)
 
 
 def atn_facts():
@@ -384,3 +389,12 @@ def install():
     if src not in sys.path:
         sys.path.insert(0, src)
     return mod
+
+
+def generate_sentences():
+    """one shortest sentence through every transition of the repository's parser ATN (set members expanded)"""
+    return request(6, "")
+
+
+def batch_compare(texts):
+    return request(7, "\u0000".join(texts))
